@@ -194,6 +194,33 @@ def generate(rng, tier, seed):
                     i = c.line("spec.tr31_build_rawenc\t" + "\t".join([enc_b(kbpk), enc_header(h), enc_b(rb(rng, el)), "i:0"]))
                     c.deferred_auth = (kbpk, i)
                     yield c
+    # very long runs of whitespace (tens of thousands of characters) inside the binary section, at the very end, and as the data of an
+    # optional block in extended-length form: refused with a documented error in time linear in the input (implementation only:
+    # a pattern like `\s+$` searched in such a text takes time quadratic in the run)
+    for ver in "ABD":
+        bs, ksizes, ml = VERS[ver]
+        kbpk = rb(rng, ksizes[-1])
+        g = tr31.wrap(kbpk, make_header(rng, ver, []), rb(rng, 16))
+        slow = False
+        for run in (60000, 100000):
+            for ws in (" ", "\n", "\t "):
+                blanks = (ws * run)[:run]
+                ext = "KS0004" + format(run + 10 + 2, "04X") + blanks + "AB"
+                cands = {"in-binary-section": g[:20] + blanks + "A" + g[20:], "at-the-end": g + blanks, "before-the-mac": g[:-2 * ml] + blanks + g[-2 * ml:],
+                         "in-an-optional-block": g[:12] + "01" + g[14:16] + ext + g[16:], "leading": blanks + g}
+                for where, s_ in cands.items():
+                    if (ws != " " and where != "in-binary-section") or slow:
+                        continue      # (after one call has blown the time limit the rest of the stream is skipped: it would take hours)
+                    c = Case(f"{ver}:long-whitespace-run", {"run": run, "where": where})
+                    c.key = (ver, "long-ws", run, where, ws)
+                    for label, fn_, args_ in (("unwrap", "tr31.unwrap", (kbpk, s_)), ("wrap", "tr31.wrap", (kbpk, s_, rb(rng, 16)))):
+                        r = core.call_impl(fn_, args_, stream="tr31")
+                        if not r.ok and r.err != "tr31":
+                            c.fail(f"{label} of a text with a run of {run} whitespace characters ({where}) escaped as {r.err}")
+                        if r.elapsed > WATCHDOG_S:
+                            c.fail(f"{label} of a text with a run of {run} whitespace characters ({where}) took {r.elapsed:.1f}s: not linear in the input")
+                            slow = True
+                    yield c
     # headers with many optional blocks parsed with little stack left (seventy frames; the unchanged parser needs a handful whatever
     # the number of blocks): the number of blocks is the sender's choice, the depth of the caller's stack is not
     import sys as _sys
